@@ -376,6 +376,17 @@ func (a *analysis) oracleC14() verdict {
 		}
 	}
 	for _, o := range a.hist() {
+		if (o.Op.K == "cancel" || o.Op.K == "shutdown") && !o.Skipped && o.Ret != 0 {
+			var running, n, first int
+			if _, err := fmt.Sscanf(o.Res, "stopped:%d/%d/%d", &running, &n, &first); err == nil {
+				a.ob("bars_read_right_after_the_stop_call", n)
+				if running > 0 {
+					return violated("running-after-"+o.Op.K, "right after %s returned, %d of %d bars still report IsRunning (first: bar %d)", o.Op.K, running, n, first)
+				}
+			}
+		}
+	}
+	for _, o := range a.hist() {
 		if o.Op.K != "barwaitget" || o.Skipped || o.Ret == 0 {
 			continue
 		}
@@ -442,19 +453,24 @@ func (a *analysis) notifierSetMsg() string {
 		}
 		seen[b] = true
 	}
-	if (sc.Mode == "auto" || sc.Mode == "pty") && sc.End == "natural" && !a.errCycle && len(a.frames) > 0 && !sc.Delay && sc.OutFailAt == 0 {
+	if (sc.Mode == "auto" || sc.Mode == "pty") && !a.errCycle && len(a.frames) > 0 && !sc.Delay && sc.OutFailAt == 0 {
 		lf := a.frames[len(a.frames)-1]
 		want := map[int]bool{}
 		for _, g := range lf.Groups {
 			want[g.ID] = true
 		}
-		// bars popped in the last frame are gone from the heap
+		// bars popped in the last frame are gone from the heap; the others it shows are
+		// still in the container, however the container ended (the frames rendered on
+		// the way out end with a stable heap)
 		for id := range want {
 			if !seen[id] && !a.leavesInLastFrame(id) {
 				return fmt.Sprintf("bar %d is shown by the last frame but missing from the notifier list %v", id, got)
 			}
 		}
 		for id := range seen {
+			if sc.End != "natural" {
+				break
+			}
 			if !want[id] && !a.clippedPossible() {
 				return fmt.Sprintf("notifier lists bar %d which the last frame does not show (list %v, last frame %v)", id, got, lf.ids())
 			}
@@ -484,6 +500,18 @@ func (a *analysis) clippedPossible() bool {
 
 func (a *analysis) leavesInLastFrame(id int) bool {
 	spec := a.sc.Bars[id]
+	if a.sc.Pop && !spec.NoPop && !spec.Rm && spec.Finish != "abortdrop" && !a.hasSuccessor(id) && !a.dropAborted(id) {
+		// a bar that pop mode retires leaves with its pop frame (terminal frame no. 3,
+		// flush counter 2); one frame earlier it has only been moved to the top and
+		// is still in the container
+		last := -1
+		for _, h := range a.hooks() {
+			if h.P == hpFlushBar && h.Bar == id {
+				last = h.A
+			}
+		}
+		return last != 1
+	}
 	return a.sc.Pop && !spec.NoPop || spec.Rm || spec.Finish == "abortdrop" || a.hasSuccessor(id)
 }
 
@@ -712,7 +740,7 @@ func (a *analysis) oracleC05() verdict {
 			}
 		}
 	}
-	if sc.Notifier && sc.End == "natural" {
+	if sc.Notifier && a.rr.tWaitRet.Load() != 0 {
 		if len(a.rr.notif) != 1 {
 			return violated(fmt.Sprintf("notifier:%d", len(a.rr.notif)), "shutdown notifier delivered %d values", len(a.rr.notif))
 		}
@@ -884,6 +912,19 @@ func (a *analysis) oracleC03() verdict {
 					}
 					term = term || g.C || g.A
 				}
+			}
+		}
+	}
+	// a bar nothing could have completed, in a container ended by cancel / Shutdown,
+	// was ended by the cancellation: the last frame shows it aborted
+	if sc.End != "natural" && (sc.Mode == "auto" || sc.Mode == "pty") && len(a.frames) > 0 {
+		lf := a.frames[len(a.frames)-1]
+		for _, g := range lf.Groups {
+			if g.ID < 0 || g.ID >= len(sc.Bars) || a.rr.bar(g.ID) == nil || g.MainIdx < 0 {
+				continue
+			}
+			if !a.mayHaveCompleted(g.ID) && !g.A {
+				return a.fv("last-cancelled-not-aborted", "bar %d could not have completed and the container was ended by %s, yet the last frame does not show it aborted: %q", g.ID, sc.End, g.Main)
 			}
 		}
 	}
